@@ -44,7 +44,7 @@ def cross_reference(ck, F, P, package="abasic-core", crate="abasic_core"):
     import panics
     if os.environ.get("ABASIC_REPO"):
         return
-    sites = clippy_sites("/repo", package)
+    sites = [s for s in clippy_sites("/repo", package) if s[0].startswith(package + "/")]
     if not sites:
         ck.bad("%s:XREF:clippy-ran" % P, "inventory cross-reference", "clippy produced no restriction-lint sites for %s" % package)
         return
